@@ -32,7 +32,7 @@ Import ListNotations.
     It is used only by Corr.v (which semantics the implementation is compared with). *)
 Definition code_variant : bool := false.
 
-Definition blockdata := list N.
+Notation blockdata := (list N) (only parsing).
 Definition file := nat -> option blockdata.
 Definition fempty : file := fun _ => None.
 
